@@ -18,7 +18,7 @@ MODULES = ['Pysmi.Props.C20', 'Pysmi.Props.C07', 'Pysmi.Props.C13']
 LAKE_TARGETS = ['Pysmi.Props.C20', 'Pysmi.Props.C07', 'Pysmi.Props.C13']
 THEOREMS = ['Pysmi.Cli.C20_exit', 'Pysmi.Cli.C20_report', 'Pysmi.Cli.C20_report_once', 'Pysmi.Cli.C20_mibcopy_latest', 'Pysmi.Cli.C20_mibcopy_provenance',
             'Pysmi.Cli.C20_mibcopy_order_irrelevant', 'Pysmi.Cli.C20_mibcopy_epoch_witness', 'Pysmi.Cli.mibcopy_dst',
-            'Pysmi.Generated.Cli.pin_exit_codes', 'Pysmi.Generated.Cli.pin_absent_revision', 'Pysmi.Generated.Cli.C20_exit_generated',
+            'Pysmi.Generated.Cli.pin_exit_codes', 'Pysmi.Generated.Cli.pin_absent_revision', 'Pysmi.Generated.Cli.C20_exit_generated', 'Pysmi.Generated.Cli.C20_index_guard', 'Pysmi.Generated.Cli.C20_run_generated',
             'Pysmi.Compile.C07_written_iff_reported_partial', 'Pysmi.Writer.C13_atomic', 'Pysmi.Writer.C13_dryrun']
 TECHNIQUE = ('Lean 4 theorems about a model of mibdump\'s exit code and report as functions of the status map (exit codes regenerated from '
              'the script and pinned) and of mibcopy\'s copy loop as a fold with the script\'s revision cache (latest revision wins, provenance, '
@@ -100,7 +100,7 @@ def scenario(rng, root, idx):
         files[n] = fn
         with open(os.path.join(src, fn), 'w') as f:
             f.write(text)
-    kind = rng.choice(['healthy', 'healthy', 'broken', 'missing', 'unknown-request', 'borrow', 'borrow', 'two-sources', 'two-sources'])
+    kind = rng.choice(['healthy', 'healthy', 'broken', 'missing', 'unknown-request', 'borrow', 'borrow', 'two-sources', 'two-sources', 'borrow-dep', 'borrow-dep'])
     requested = [names[-1]] if rng.random() < 0.5 else list(names)
     if kind == 'broken':
         victim = rng.choice(names)
@@ -131,17 +131,38 @@ def scenario(rng, root, idx):
         requested = list(names)
         if rng.random() < 0.6:
             requested.append('ZZ-NOT-THERE-MIB')
+    expect_missing = None
+    if kind == 'borrow-dep' and len(names) > 1:
+        # a dependency (not requested) without source that only the borrower repository holds, dependencies not being
+        # compiled: it is neither compiled nor borrowed, so it must be reported missing
+        fmt = 'json'
+        victim = names[0]
+        os.remove(os.path.join(src, files[victim]))
+        with open(os.path.join(empty, victim + '.json'), 'w') as f:
+            f.write('{"borrowed": "%s"}' % victim)
+        requested = list(names[1:])
+        seen, todo = set(), list(requested)
+        while todo:
+            x = todo.pop()
+            if x in seen or x not in g.modules:
+                continue
+            seen.add(x)
+            todo.extend(g.modules[x]['imports'])
+            if victim in g.modules[x]['imports']:
+                expect_missing = victim
     opts = []
+    if kind == 'borrow-dep':
+        opts.append('--no-dependencies')
     for o, p in (('--dry-run', 0.2), ('--no-mib-writes', 0.15), ('--ignore-errors', 0.3), ('--no-dependencies', 0.2), ('--rebuild', 0.3),
                  ('--generate-mib-texts', 0.3), ('--build-index', 0.15), ('--keep-texts-layout', 0.1)):
-        if rng.random() < p:
+        if rng.random() < p and o not in opts:
             opts.append(o)
     if fmt == 'pysnmp' and rng.random() < 0.5:
         opts.append('--no-python-compile')
     args = [MIBDUMP] + ['--mib-source=file://' + x for x in sources] + ['--mib-borrower=file://' + empty, '--destination-format=' + fmt,
             '--destination-directory=' + dst] + opts + requested
     return {'dir': d, 'src': src, 'sources': sources, 'dst': dst, 'empty': empty, 'format': fmt, 'opts': opts, 'requested': requested, 'kind': kind, 'args': args,
-            'names': names}
+            'names': names, 'expect_missing': expect_missing}
 
 
 def library_statuses(sc):
@@ -276,8 +297,8 @@ def run(ctx):
                 'non-trivial = more than one module or source')
     root = common.scratch_dir('c20-')
     try:
-        n = 24 if ctx.tier == 'quick' else 300
-        scs = [scenario(random.Random(ctx.seed * 1000 + 20000 + i), root, i) for i in range(n)]
+        n = 36 if ctx.tier == 'quick' else 300
+        scs = [dict(scenario(random.Random(ctx.seed * 1000 + 20000 + i), root, i), regen=[ctx.seed * 1000 + 20000 + i, i]) for i in range(n)]
         with ThreadPoolExecutor(max_workers=12) as ex:
             outs = list(ex.map(lambda sc: run_cmd(sc['args']), scs))
         reqs, metas = [], []
@@ -286,16 +307,28 @@ def run(ctx):
             res.count('mibdump:%s:%s' % (sc['format'], sc['kind']))
             for o in sc['opts']:
                 res.count('opt:' + o)
-            inp = {'args': sc['args'][1:], 'kind': sc['kind']}
+            inp = {'args': sc['args'][1:], 'kind': sc['kind'], 'regen': sc['regen']}
             cats = parse_report(err)
+            if '--build-index' in sc['opts'] and sc['format'] == 'pysnmp':
+                # the pysnmp generator cannot build an index: a usage error, before anything is compiled or written
+                res.count('mibdump:index-unsupported')
+                left = listing(sc['dst'], sc['format'])
+                if rc != 64 or left:
+                    res.oracle_failures.append({'key': 'build-index-unsupported-format', 'what': 'mibdump --build-index with format %s: exit %d, destination %s (expected usage error 64, nothing written): %s' % (
+                        sc['format'], rc, sorted(left), err[-200:].replace('\n', ' | ')), 'input': dict(inp, format=sc['format'], opts=sc['opts'])})
+                continue
             if rc not in (0, 79):
-                key = 'build-index-unsupported-format' if ('--build-index' in sc['opts'] and sc['format'] != 'json' and 'NotImplementedError' in err) else 'exit-code'
+                key = 'exit-code'
                 res.oracle_failures.append({'key': key, 'what': 'mibdump exited with %d and no report: %s' % (rc, err[-300:].replace('\n', ' | ')),
                                             'input': dict(inp, format=sc['format'], opts=sc['opts'])})
                 continue
             if any(v is None for v in cats.values()):
                 res.oracle_failures.append({'key': 'report', 'what': 'report lines missing from stderr: %s' % [k for k, v in cats.items() if v is None], 'input': inp})
                 continue
+            if sc.get('expect_missing') and sc['expect_missing'] not in cats['missing'] + [x.split(' ')[0] for x in cats['failed']]:
+                res.oracle_failures.append({'key': 'dependency-not-reported', 'what': 'with --no-dependencies the imported module %s has no source and is not '
+                                            'borrowed, yet it is reported neither missing nor failed: %s' % (sc['expect_missing'], {k: v for k, v in cats.items() if v}),
+                                            'input': inp})
             bad = (cats['missing'] or cats['failed'])
             if (rc == 0) != (not bad):
                 res.oracle_failures.append({'key': 'exit-code', 'what': 'exit status %d with missing=%s failed=%s' % (rc, cats['missing'], cats['failed']), 'input': inp})
@@ -325,7 +358,7 @@ def run(ctx):
             if rc != 64:
                 res.oracle_failures.append({'key': 'usage', 'what': '%s exits with %d, expected 64' % (' '.join(args[1:]) or '(no arguments)', rc), 'input': {'args': args[1:]}})
         # (ii) mibcopy
-        m = 10 if ctx.tier == 'quick' else 120
+        m = 20 if ctx.tier == 'quick' else 120
         jobs = []
         for i in range(m):
             cs = copy_scenario(random.Random(ctx.seed * 1000 + 21000 + i), root, i)
@@ -402,6 +435,12 @@ def replay(payload):
     key = payload.get('key', '')
     root = common.scratch_dir('c20r-')
     try:
+        if key == 'dependency-not-reported' and 'regen' in inp:
+            sc = scenario(random.Random(inp['regen'][0]), root, inp['regen'][1])
+            rc, err = run_cmd(sc['args'])
+            cats = parse_report(err)
+            reported = (cats.get('missing') or []) + [x.split(' ')[0] for x in (cats.get('failed') or [])]
+            return {'fails': bool(sc.get('expect_missing')) and sc['expect_missing'] not in reported, 'what': {k: v for k, v in cats.items() if v}}
         if key.startswith('mibcopy'):
             dst = os.path.join(root, 'dst')
             os.makedirs(dst)
@@ -432,7 +471,7 @@ def replay(payload):
             open(os.path.join(src, 'ACME-X-MIB'), 'w').write('ACME-X-MIB DEFINITIONS ::= BEGIN IMPORTS enterprises FROM SNMPv2-SMI; acmeX OBJECT IDENTIFIER ::= { enterprises 89 } END')
             rc, err = run_cmd([MIBDUMP, '--mib-source=file://' + src, '--mib-borrower=file://' + empty, '--destination-format=' + inp['format'],
                                '--destination-directory=' + dst, '--build-index', 'ACME-X-MIB'])
-            return {'fails': rc not in (0, 79), 'what': 'exit %d' % rc}
+            return {'fails': rc != 64 or bool(os.listdir(dst)), 'what': 'exit %d, destination %s' % (rc, os.listdir(dst))}
         if key == 'usage':
             rc, err = run_cmd([MIBDUMP if 'only-one-argument' not in inp['args'] else MIBCOPY] + inp['args'])
             return {'fails': rc != 64}
